@@ -523,10 +523,16 @@ fn mode_threads(out: &mut Out, opts: &ObsOpts, listfile: &str) -> io::Result<()>
                 Ok(f2) => observe_file_rotated(&f2, &opts, 0) == o0,
                 Err(_) => false,
             };
-            let reload_ok = same(AsepriteFile::read(&data[..]))
-                && same(AsepriteFile::read(OneByteReader { data: &data, pos: 0 }))
-                && same(AsepriteFile::read(BufReader::with_capacity(7, Cursor::new(data.clone()))))
-                && same(AsepriteFile::read_file(Path::new(&path)));
+            let reload_parts = [
+                same(AsepriteFile::read(&data[..])),
+                same(AsepriteFile::read(OneByteReader { data: &data, pos: 0 })),
+                same(AsepriteFile::read(BufReader::with_capacity(7, Cursor::new(data.clone())))),
+                same(AsepriteFile::read_file(Path::new(&path))),
+            ];
+            let reload_ok = reload_parts.iter().all(|b| *b);
+            if !reload_ok {
+                emit(&format!("# reload (slice, one byte at a time, BufReader(7), read_file): {:?}\n", reload_parts));
+            }
 
             // Same bytes loaded a third time; before the canonical observation every image-producing
             // accessor is called once in the opposite order (last frame / last layer / last tileset
